@@ -6,6 +6,9 @@ def showRes : Res → String
   | .ok v => s!"ok:{v}"
   | .err e => s!"err:{e}"
   | .cancelled => "X"
+  | .okObj .none => "ok:None"
+  | .okObj (.exn (.code e)) => s!"ok:E{e}"
+  | .okObj (.exn .cancelled) => "ok:EX"
 
 def showT : TSt → String
   | .queued => "Q"
@@ -30,6 +33,9 @@ def parseOutcome (t : String) : Option Outcome :=
   | 'r' :: d => (String.ofList d).toNat?.map Outcome.ret
   | 'e' :: d => (String.ofList d).toNat?.map Outcome.raise
   | 'c' :: _ => some Outcome.cancel
+  | 'n' :: _ => some (Outcome.retObj .none)
+  | 'v' :: d => (String.ofList d).toNat?.map fun e => Outcome.retObj (.exn (.code e))
+  | 'w' :: _ => some (Outcome.retObj (.exn .cancelled))
   | _ => none
 
 def parseFlavour : String → Option Flavour
@@ -39,7 +45,7 @@ def parseFlavour : String → Option Flavour
   | "on" => some .online
   | _ => none
 
-/-- lines: `start FLAVOUR ENTRY N o0 o1 …` (`ENTRY` = `hold` | `bg`; outcomes `r<v>` | `e<e>`), `finish i`, `body r0|e<e>`, `cancel` (outcomes also `c0` = the body ends in CancelledError) -/
+/-- lines: `start FLAVOUR ENTRY N o0 o1 …` (`ENTRY` = `hold` | `bg`; outcomes `r<v>` | `e<e>`), `finish i`, `body r0|e<e>`, `cancel` (outcomes also `c0` = the body ends in CancelledError, `n0` / `v<e>` / `w0` = the body RETURNS None / an exception instance / a CancelledError instance) -/
 def handle (st : Option State) (line : String) : Option State × String :=
   match words line, st with
   | "start" :: fl :: en :: n :: os, _ =>
